@@ -1243,3 +1243,5 @@ def install(tr: Translator):
     itermodels.install(tr)
     import revm_models
     revm_models.install(tr)
+    import models3
+    models3.install(tr)
